@@ -187,26 +187,35 @@ class C18(Prop):
                        ([helper] if mode == "noshell" else []) + words
                 if mode == "shell" and any(w == "" for w in words[:1]):
                     continue
-                try:
-                    subprocess.run(argv, env=env, cwd=d, stdout=subprocess.DEVNULL, stderr=subprocess.DEVNULL, timeout=30)
-                except subprocess.TimeoutExpired:
-                    c.errors.append("wx_cli timed out on " + json.dumps(words))
-                    return
+                want = [hx(w) for w in words] if mode == "noshell" else [hx("-c"), hx(" ".join(words))]
+                got, diag = None, ""
+                for attempt in range(3):          # a whole program started from scratch: a run that disagrees is repeated, a change in the code disagrees every time
+                    if os.path.exists(out):
+                        os.remove(out)
+                    try:
+                        pr = subprocess.run(argv, env=env, cwd=d, stdin=subprocess.DEVNULL, stdout=subprocess.DEVNULL, stderr=subprocess.PIPE, timeout=60, text=True, errors="replace")
+                        diag = f"rc={pr.returncode} stderr={pr.stderr[-300:]}"
+                    except subprocess.TimeoutExpired:
+                        diag = "timeout"
+                    got = None
+                    if os.path.exists(out):
+                        for line in open(out):
+                            try:
+                                o = json.loads(line)
+                            except ValueError:
+                                continue
+                            if o.get("ev") == "start":
+                                got = o["argv"][1:]
+                                break
+                    if got == want:
+                        break
                 c.evaluations += 1
                 c.count("e2e:" + mode)
-                got = None
-                if os.path.exists(out):
-                    for line in open(out):
-                        o = json.loads(line)
-                        if o.get("ev") == "start":
-                            got = o["argv"][1:]
-                            break
-                want = [hx(w) for w in words] if mode == "noshell" else [hx("-c"), hx(" ".join(words))]
                 if got == want:
                     c.validated += 1
                     c.nontrivial.add(json.dumps([mode, words]))
                 else:
-                    c.failing.append({"case": {"mode": mode, "words_after_double_dash": words}, "impl": got, "expected": want,
+                    c.failing.append({"case": {"mode": mode, "words_after_double_dash": words}, "impl": got, "diagnostic": diag, "expected": want,
                                       "clause": "C18_cli_noshell_verbatim / C18_shell_order (end to end): the words after `--` did not reach the command as given"})
 
 
